@@ -60,7 +60,15 @@ def main():
         rows.append((sid, verdicts, cur.get("apply_error", "")))
         print(sid, verdicts, cur.get("apply_error", "")[:200], flush=True)
     sh("python3 tools/extract.py", cwd=VERIF)
-    json.dump([{"seed": a, "verdicts": b} for a, b, _ in rows], open(os.path.join(VERIF, "seeded", "MATRIX.json"), "w"), indent=1)
+    sh("python3 tools/cxx2lean.py", cwd=VERIF)
+    mp = os.path.join(VERIF, "seeded", "MATRIX.json")
+    matrix = {}
+    if os.path.exists(mp):
+        for e in json.load(open(mp)):
+            matrix[e["seed"]] = e
+    for a, b, _ in rows:
+        matrix[a] = {"seed": a, "verdicts": b, "repo_head": head}
+    json.dump([matrix[k] for k in sorted(matrix)], open(mp, "w"), indent=1)
 
 
 if __name__ == "__main__":
